@@ -150,6 +150,21 @@ CLAIMED["C04"] = (
     "DESIGN.md section 6, C04",
 )
 
+CLAIMED["C17"] = (
+    "Coq theorems for every axis: crop_dim returns exactly the samples of the requested interval — unconditionally for closed "
+    "ends, and for open ends when no coordinate lies within eps of them (the unrestricted statement is refuted by a proved "
+    "witness: known finding); extend_dim = fill-valued lattice points + the untouched original samples + fill-valued lattice "
+    "points, the added points being exactly the lattice points strictly between the eps-shifted requested ends and the axis; "
+    "adjust_dim_width / crop_dim_width / extend_dim_width return exactly `width` samples for every width >= 1, the original "
+    "block placed at start / centre / end, new samples on the lattice with the fill value; invalid ranges / widths rejected. "
+    "Correspondence: dyadic stream exact, decimal stream counts exact and coordinates to 1e-9.",
+    "Trusted: Coq kernel/vm_compute; xarray label slicing / reindex and np.arange re-implemented in Gallina (correspondence); "
+    "estimate_dim_step tolerance check not modelled (regular axes only); float rounding not modelled (the decimal stream keeps "
+    "range ends >= step/4 away from lattice points).",
+    "Rocq/Coq proof over Q + model/implementation correspondence by vm_compute",
+    "DESIGN.md section 6, C17",
+)
+
 NOT_YET = {}
 
 
